@@ -93,7 +93,10 @@ func DecimalVal(t *rapid.T) int64 {
 }
 
 // StringsPool: short strings that collide with patterns and keys.
-var StringsPool = []string{"", "a", "b", "ab", "abc", "aXb", "*", "a*", "\\", "\"", "'", "\n", "é", "日本", "�", "á", "\U0001F600", "if", "0", "1", "view"}
+var StringsPool = []string{"", "a", "b", "ab", "abc", "aXb", "*", "a*", "\\", "\"", "'", "\n", "é", "日本", "�", "á", "\U0001F600", "if", "0", "1", "view",
+	// texts that *look like* escapes (a backslash followed by letters): a codec that post-processes its output, or unescapes
+	// twice, turns them into something else
+	"\\u003c", "\\u0026x", "\\n", "\\\"", "\\u{41}", "<>&", "&lt;"}
 
 func StringVal(t *rapid.T) string {
 	switch rapid.IntRange(0, 9).Draw(t, "strsrc") {
